@@ -96,6 +96,48 @@ def contracts():
                       '(value,) + %s[position:n])' % (S_, S_),
                       'forall(range(0, min(len(out), position)), lambda k: '
                       'pulls[k] == k + 1)'])])
+    # ---- insertMany: the values go in front of element `position` (at the
+    # end when the collection is shorter, at the front when negative) --------
+    VS = TSeq(TVal)
+    c(C + 'insert_many', params=dict(collection=IT, position=TInt,
+                                     values=VS),
+      track_pulls='collection',
+      ensures=[
+          'implies(position < 0, out == values + %s)' % S_,
+          'implies(0 <= position and position <= len(%s), out == '
+          '%s[:position] + values + %s[position:])' % (S_, S_, S_),
+          'implies(position > len(%s), out == %s + values)' % (S_, S_)],
+      loops=[dict(anchor='for i, t in enumerate(collection)', index='n',
+                  invariant=[
+                      'SRC.pos == n', 'i == n - 1',
+                      'implies(position < 0, out == values + %s[:n])' % S_,
+                      'implies(0 <= position and n <= position, out == '
+                      '%s[:n])' % S_,
+                      'implies(0 <= position and n > position, out == '
+                      '%s[:position] + values + %s[position:n])' % (S_, S_)
+                  ])])
+    # ---- replaceMany: the run [position, position+count) (to the end when
+    # count < 0) is replaced by the values, emitted when the run is entered ----
+    c(C + 'replace_many', params=dict(collection=IT, position=TInt,
+                                      values=VS, count=TInt),
+      track_pulls='collection', requires=['position >= 0'],
+      ensures=[
+          'implies(count >= 1 and position < len(%s), out == %s[:position] '
+          '+ values + %s[position + count:])' % (S_, S_, S_),
+          'implies(count == 0 or position >= len(%s), out == %s)' % (S_, S_),
+          'implies(count < 0 and position < len(%s), out == %s[:position] '
+          '+ values)' % (S_, S_)],
+      loops=[dict(anchor='for i, t in enumerate(collection)', index='n',
+                  invariant=[
+                      'SRC.pos == n',
+                      'yielded == (count != 0 and n > position)',
+                      'implies(n <= position or count == 0, out == %s[:n])'
+                      % S_,
+                      'implies(n > position and count >= 1, out == '
+                      '%s[:position] + values + %s[position + count:max(n, '
+                      'position + count)])' % (S_, S_),
+                      'implies(n > position and count < 0, out == '
+                      '%s[:position] + values)' % S_])])
     c(C + 'list_insert', params=dict(collection=TSeq(TVal), position=TInt,
                                      value=TVal),
       requires=['position >= 0'],
